@@ -290,6 +290,10 @@ func (r *Remote) addReachableTags(localRefs []*plumbing.Reference, remoteRefs st
 				continue
 			}
 
+			if cmd.Action() == packp.Delete {
+				continue
+			}
+
 			c, err := object.GetCommit(r.s, cmd.New)
 			if err != nil {
 				return fmt.Errorf("get commit %v: %w", cmd.Name, err)
